@@ -472,7 +472,7 @@ Proof.
     rewrite (IH (SPDefined so bo fs) (Some so)); [reflexivity|exact C|exact Gl|reflexivity].
   - assert (C' : contiguous_from seekpoint_is_next SPPlaceholder l = true).
     { destruct prev; cbn [seekpoint_is_next] in C; exact C. }
-    rewrite (IH SPPlaceholder lo); [reflexivity|exact C'|exact Gl|exact I].
+    rewrite (IH SPPlaceholder lo); [reflexivity|exact C'|exact Gl|exact Logic.I].
 Qed.
 
 Lemma seektable_read_inv size s l r : Forall byte s -> read_seektable size s = Ok (l, r) ->
@@ -496,5 +496,5 @@ Proof.
     destruct x as [so bo fs|].
     + destruct (N.eqb_spec so U64_MAX) as [|_]; [contradiction|].
       rewrite (seek_contig_writes l' (SPDefined so bo fs) (Some so)); [reflexivity|exact C|exact Gl|reflexivity].
-    + rewrite (seek_contig_writes l' SPPlaceholder None); [reflexivity|exact C|exact Gl|exact I].
+    + rewrite (seek_contig_writes l' SPPlaceholder None); [reflexivity|exact C|exact Gl|exact Logic.I].
 Qed.
